@@ -98,6 +98,8 @@ fn second_selection(kind: u64, name: &str) -> String {
         1 => format!(".device {}\n.device {}\n", name, name),
         2 => format!(".device {}\n", if name == "ATmega16" { "ATmega8" } else { "ATmega16" }),
         3 => format!(".macro again_part\n.device {}\n.endm\n\tagain_part\n", name),
+        // the second line sits in an included file (the way the shipped part files name their part)
+        4 | 5 => ".include \"part.inc\"\n".to_string(),
         _ => String::new(),
     }
 }
@@ -222,15 +224,26 @@ fn sequences(ctx: &Ctx, rounds: u64) {
             let t2 = tuple(&forms[pick], &mut rng);
             src.push_str(&forms[pick].text(&t2));
             src.push('\n');
-            let out = fw::build_str(&src);
+            let part = match again {
+                4 => Some(format!(".device {}\n", name)),
+                5 => Some(format!("; part definitions\n.equ part_file_read = 1\n\t.device {}\n.equ part_file_end = 2\n", name)),
+                _ => None,
+            };
+            let out = match &part {
+                Some(p) => fw::build_main_with_part(&src, p),
+                None => fw::build_str(&src),
+            };
             ctx.eval(1);
             ctx.count("sequence_programs_with_one_forbidden_form", 1);
+            if part.is_some() {
+                ctx.count("sequence_programs_device_named_again_in_an_included_file", 1);
+            }
             if !out.is_err() {
                 let flag = devices::forbidding_flag(dev, &f.name).map(|x| format!("{:?}", x)).unwrap_or_default();
                 ctx.violation(
-                    format!("gate/{}/{}/accepted-after-allowed-instructions{}{}", flag, f.name, if route == 0 { String::new() } else { format!("/device-selected-by-route-{}", route) }, if again < 4 { "/device-named-again" } else { "" }),
+                    format!("gate/{}/{}/accepted-after-allowed-instructions{}{}", flag, f.name, if route == 0 { String::new() } else { format!("/device-selected-by-route-{}", route) }, if again < 4 { "/device-named-again" } else if again < 6 { "/device-named-again-in-an-included-file" } else { "" }),
                     format!("`{}` assembled on {} (which has {}) when it followed allowed instructions{}", f.text(&t), name, flag, if siblings.is_empty() { "" } else { " of the same mnemonic" }),
-                    json!({"source": src, "device": name, "sequence": true, "must_build": false}),
+                    json!({"source": src, "part_file": part, "device": name, "sequence": true, "must_build": false}),
                 );
             }
         }
@@ -367,7 +380,10 @@ pub fn run(ctx: &Ctx) -> i32 {
 
 pub fn replay(ctx: &Ctx, case: &Value) -> i32 {
     if case["sequence"].as_bool() == Some(true) {
-        let out = fw::build_str(case["source"].as_str().unwrap_or(""));
+        let out = match case["part_file"].as_str() {
+            Some(p) => fw::build_main_with_part(case["source"].as_str().unwrap_or(""), p),
+            None => fw::build_str(case["source"].as_str().unwrap_or("")),
+        };
         ctx.eval(1);
         ctx.distinct(1);
         ctx.distinct(2);
